@@ -1,6 +1,8 @@
 package chainsim
 
 import (
+	"os"
+	"strings"
 	"fmt"
 
 	feedstypes "github.com/bandprotocol/chain/v3/x/feeds/types"
@@ -70,6 +72,21 @@ func (m *C08) OnBlock(e *Env, blk *world.BlockRecord) {
 					return
 				}
 				m.nFailed++
+				why := "other"
+				for _, k := range []string{"insufficient", "channel", "no active", "not enough", "DE", "de ", "fee", "group", "port", "route"} {
+					if strings.Contains(strings.ToLower(jp.Reason), strings.ToLower(k)) {
+						why = strings.TrimSpace(k)
+						break
+					}
+				}
+				e.St.Probe("c08_send_failed_because:" + why)
+				if os.Getenv("VERIF_DEBUG_C08") != "" {
+					r := jp.Reason
+					if len(r) > 110 {
+						r = r[:110]
+					}
+					e.St.Probe("dbg:" + r)
+				}
 				e.St.Trace("send-failed")
 				e.St.Covered("c08.failed")
 				continue
